@@ -78,7 +78,7 @@ func (f *FuncCtx) callEffects(call *ast.CallExpr, lt *loopTargets) {
 		for _, m := range c.Modifies {
 			hs, gs := f.resolveMod(c, m)
 			for _, h := range hs {
-				lt.heaps[h] = true
+				lt.heaps[strings.TrimPrefix(h, "fresh:")] = true
 			}
 			for _, g := range gs {
 				lt.ghost[g] = true
@@ -114,6 +114,14 @@ var reModField = regexp.MustCompile(`^(?:(\w+)\.)?(\w+)\.([\w.]+|\*)$`)
 func (f *FuncCtx) resolveMod(c *Contract, item string) (heaps []string, ghosts []string) {
 	w := f.w
 	item = strings.TrimSpace(item)
+	if strings.HasPrefix(item, "fresh ") {
+		// `fresh T.*`: fields of objects ALLOCATED DURING the call may be written; objects that existed before are untouched
+		hs, _ := f.resolveMod(c, strings.TrimSpace(strings.TrimPrefix(item, "fresh ")))
+		for _, h := range hs {
+			heaps = append(heaps, "fresh:"+h)
+		}
+		return heaps, nil
+	}
 	switch {
 	case strings.HasPrefix(item, "$"):
 		return nil, []string{item}
@@ -396,6 +404,15 @@ func (f *FuncCtx) applyContract(st *State, c *Contract, fn *types.Func, recv *Te
 	for _, m := range c.Modifies {
 		hs, gs := f.resolveMod(c, m)
 		for _, h := range hs {
+			if strings.HasPrefix(h, "fresh:") {
+				h = strings.TrimPrefix(h, "fresh:")
+				al := f.heapTerm(old, "alloc", "(Array Int Bool)")
+				if st.pending == nil {
+					st.pending = map[string][]string{}
+				}
+				st.pending[h] = append(st.pending[h], al)
+				continue
+			}
 			f.havocHeap(st, h)
 		}
 		for _, g := range gs {
